@@ -274,7 +274,8 @@ theorem hooksAndFinalize_head (pg : Pages) (rq : Req) (cached : Bool) (hooks : L
     hooksAndFinalize pg rq cached hooks s = hooksAndFinalize pg (asGet rq) cached hooks s := by
   simp only [hooksAndFinalize, runSteps_head pg rq cached hm, finalize_head rq]
 
-theorem handleError_head (pg : Pages) (rq : Req) (s : St) : handleError pg rq s = handleError pg (asGet rq) s := rfl
+theorem handleError_head (pg : Pages) (rq : Req) (fails : Bool) (s : St) :
+    handleError pg rq fails s = handleError pg (asGet rq) fails s := rfl
 
 theorem handlerStage_head (pg : Pages) (rq : Req) (p : Plan) (r : Resp) :
     handlerStage pg rq p r = handlerStage pg (asGet rq) p r := rfl
@@ -286,10 +287,10 @@ theorem beforeAndHandler_head (pg : Pages) (rq : Req) (p : Plan) (cache : Option
   have h3 : ∀ c : Cache, c.find rq = c.find (asGet rq) := fun _ => rfl
   simp only [beforeAndHandler, h1, h2, if_false, handlerStage_head pg rq p, h3]
 
-theorem recover_head (pg : Pages) (rq : Req) (cached : Bool) (hooks : List Step) (first : St × Option Exn)
+theorem recover_head (pg : Pages) (rq : Req) (fails cached : Bool) (hooks : List Step) (first : St × Option Exn)
     (hm : rq.method = .head) :
-    recover pg rq cached hooks first = recover pg (asGet rq) cached hooks first := by
-  simp only [recover, handleError_head pg rq, hooksAndFinalize_head pg rq cached hooks _ hm]
+    recover pg rq fails cached hooks first = recover pg (asGet rq) fails cached hooks first := by
+  simp only [recover, handleError_head pg rq fails, hooksAndFinalize_head pg rq cached hooks _ hm]
 
 /-- Nothing before the HEAD removal looks at the difference between GET and HEAD: the finalized
     response, the cache state and the hit flag are *identical*. -/
@@ -305,7 +306,7 @@ theorem respond_head_eq_get (pg : Pages) (rq : Req) (p : Plan) (cache : Option C
   simp only [respond, hfp]
   generalize firstPass pg (asGet rq) p cache = fp
   obtain ⟨first, cached, hooks⟩ := fp
-  simp only [recover_head pg rq cached hooks first hm]
+  simp only [recover_head pg rq p.t.errFails cached hooks first hm]
 
 /-- **C06, HEAD part**: HEAD answers with the status, Content-Type and Content-Length the
     corresponding GET commits to, and delivers zero bytes.  (`first` = what the GET's application
@@ -398,6 +399,21 @@ example : ¬ HandlerOk witnessPlan := by
 theorem stream_204_keeps_body :
     let o := (serve pg0 {} { h := { shape := .bytesV [1, 2, 3], st := .set 204 }, t := { stream := true } } none).1
     o.code = 204 ∧ o.stream = true ∧ o.cl = none ∧ o.delivered.length = 3 := by
+  decide
+
+/-- the last-resort branch is reachable (error_response itself raises) and is framed like any other
+    response: `bare_error` carries its own exact Content-Length -/
+theorem bare_error_framed :
+    let o := (serve pg0 {} { h := { shape := .bytesV [1, 2, 3], st := .raiseExc, setCL := some 3 },
+                             t := { errFails := true } } none).1
+    o.code = 500 ∧ o.src = .bare ∧ o.cl = some (.nat 1) ∧ o.delivered.length = 1 := by
+  decide
+
+/-- `Content-Length: None` (serve_fileobj without a length) is computed by a buffered finalize and
+    removed by a streaming one -/
+theorem none_length_resolved :
+    (serve pg0 {} { h := { shape := .fileObjV [1, 2, 3] } } none).1.cl = some (.nat 3) ∧
+    (serve pg0 {} { h := { shape := .fileObjV [1, 2, 3] }, t := { stream := true } } none).1.cl = none := by
   decide
 
 /-! ### non-vacuity -/
